@@ -15,6 +15,7 @@ def check(fb, ctx):
     )
     chain.signer_rules(fb, ctx)
     chain.seal_rules(fb, ctx)
+    chain.last_block_rules(fb, ctx)
     n = chain.layout_rules(fb, ctx)
     ctx.floor("payload generators", n, 7)
     chain.dispatch_rules(fb, ctx)
